@@ -493,11 +493,11 @@ class Ctx:
         return rc
 
 
-def lean_obligations(ctx, prop, theorems, allow_axioms=(), allow_bv_decide_in=()):
+def lean_obligations(ctx, prop, theorems, allow_axioms=(), allow_bv_decide_in=(), module=None):
     """build Props.<prop>, audit axioms, grep forbidden constructs.
     theorems: list of fully-qualified names expected in the audit output.
     returns True iff every obligation is discharged."""
-    mod = "KalignModel.Props." + prop
+    mod = "KalignModel.Props." + (module or prop)
     audit_src = "import %s\n" % mod + "".join("#print axioms %s\n" % t for t in theorems)
     apath = os.path.join(LEAN, "KalignModel", "Audit", prop + ".lean")
     if not os.path.exists(apath) or open(apath).read() != audit_src:
